@@ -13,7 +13,8 @@ built on it, transcribed in full
 
 (the code after the `fix:` commits of findings/C10.json: a `DirectionFunction` counts the evaluations
 made through it, `lineMinimization` / `lineSearch` return that count, Powell counts its own
-evaluations; BFGS goes back to the point a step started from when the function has increased).
+evaluations; BFGS goes back to the point a step started from when the function has increased; every
+branch of Powell's `doStep` leaves the function at the optimiser's parameters).
 
 A `DirectionFunction` is a function object wrapped around another one (the optimiser's function:
 the same C++ object, held through a `shared_ptr`): its state contains the state of that function,
